@@ -248,6 +248,14 @@ static inline size_t vit_checked_index(size_t i, size_t n)
     }
 #define VSTR_IT_OPS(NAME, IT)
 #define VMAP_IT_OPS(NAME, IT)                                                                 \
+    static inline IT NAME##_erase_1(NAME *m, IT it)                                           \
+    {                                                                                         \
+        MODEL_ASSERT(it.i < m->n, "std::map::erase: iterator not dereferenceable (undefined behaviour)"); \
+        for (size_t k = it.i; k + 1 < m->n; ++k)                                              \
+            m->d[k] = m->d[k + 1];                                                            \
+        m->n--;                                                                               \
+        return it;                                                                            \
+    }                                                                                         \
     static inline IT NAME##_find(const NAME *m, NAME##_key_t k) { return (IT){(NAME *)m, NAME##_find_pos(m, k)}; }
 
 /* ---------------------------------------------------------------- std::vector<T> -------- */
@@ -328,6 +336,15 @@ static inline size_t vit_checked_index(size_t i, size_t n)
 
 /* iterator-taking members are defined once the iterator type exists */
 #define VVEC_IT_OPS(NAME, IT)                                                                 \
+    static inline IT NAME##_erase_2(NAME *v, IT first, IT last)                               \
+    {                                                                                         \
+        MODEL_ASSERT(first.i <= last.i && last.i <= v->n, "std::vector::erase(first, last): invalid range (undefined behaviour)"); \
+        size_t gap = last.i - first.i;                                                        \
+        for (size_t k = first.i; k + gap < v->n; ++k)                                         \
+            v->d[k] = v->d[k + gap];                                                          \
+        v->n -= gap;                                                                          \
+        return first;                                                                         \
+    }                                                                                         \
     static inline void IT##_iota(IT first, IT last, NAME##_elem_t v0)                         \
     {                                                                                         \
         for (; first.i != last.i; ++first.i)                                                  \
@@ -414,6 +431,17 @@ static inline size_t vit_checked_index(size_t i, size_t n)
         m->d[m->n].first = k;                                                                 \
         m->d[m->n].second = v;                                                                \
         m->n++;                                                                               \
+    }                                                                                         \
+    static inline V *NAME##_index(NAME *m, K k) /* operator[]: inserts a default value */     \
+    {                                                                                         \
+        size_t i = NAME##_find_pos(m, k);                                                     \
+        if (i == m->n) {                                                                      \
+            MODEL_BOUND(m->n < VMAP_CAP);                                                     \
+            m->d[i].first = k;                                                                \
+            memset(&m->d[i].second, 0, sizeof(V));                                            \
+            m->n++;                                                                           \
+        }                                                                                     \
+        return &m->d[i].second;                                                               \
     }                                                                                         \
     static inline V *NAME##_at(const NAME *m, K k)                                            \
     {                                                                                         \
